@@ -4,9 +4,10 @@
 set -u
 ID=$1; K=$2
 SRC=/tmp/seed/$ID/out/$K
-WT=/tmp/confirm/wt
-export CARGO_TARGET_DIR=/tmp/confirm/target
-mkdir -p /tmp/confirm
+L=${CONFIRM_LANE:-}
+WT=/tmp/confirm$L/wt
+export CARGO_TARGET_DIR=/tmp/confirm$L/target
+mkdir -p /tmp/confirm$L
 if [ ! -d $WT ]; then git -C /repo worktree add -q --detach $WT HEAD || exit 2; fi
 cd $WT || exit 2
 git checkout -q --detach "$(git -C /repo rev-parse HEAD)" 2>/dev/null
@@ -14,13 +15,13 @@ git checkout -q -- . && git clean -fdq
 res() { echo "$ID-$K: $*"; }
 git apply --check "$SRC/patch.diff" 2>/dev/null || { res "REJECT patch does not apply"; exit 1; }
 git apply "$SRC/patch.diff"
-if ! cargo test --workspace --no-fail-fast --offline > /tmp/confirm/suite.log 2>&1; then res "REJECT suite fails with patch"; git checkout -q -- .; exit 1; fi
-passed=$(grep -c "^test .* ok$" /tmp/confirm/suite.log)
+if ! cargo test --workspace --no-fail-fast --offline > /tmp/confirm$L/suite.log 2>&1; then res "REJECT suite fails with patch"; git checkout -q -- .; exit 1; fi
+passed=$(grep -c "^test .* ok$" /tmp/confirm$L/suite.log)
 cp "$SRC/demo.rs" tests/seed_demo.rs
-if cargo test --test seed_demo --offline > /tmp/confirm/demo_with.log 2>&1; then res "REJECT demo passes with patch"; git checkout -q -- .; rm -f tests/seed_demo.rs; exit 1; fi
-grep -q "test result: FAILED" /tmp/confirm/demo_with.log || { res "REJECT demo did not run to a test failure (compile error?)"; git checkout -q -- .; rm -f tests/seed_demo.rs; exit 1; }
+if cargo test --test seed_demo --offline > /tmp/confirm$L/demo_with.log 2>&1; then res "REJECT demo passes with patch"; git checkout -q -- .; rm -f tests/seed_demo.rs; exit 1; fi
+grep -q "test result: FAILED" /tmp/confirm$L/demo_with.log || { res "REJECT demo did not run to a test failure (compile error?)"; git checkout -q -- .; rm -f tests/seed_demo.rs; exit 1; }
 git checkout -q -- .
-if ! cargo test --test seed_demo --offline > /tmp/confirm/demo_without.log 2>&1; then res "REJECT demo fails without patch"; rm -f tests/seed_demo.rs; exit 1; fi
+if ! cargo test --test seed_demo --offline > /tmp/confirm$L/demo_without.log 2>&1; then res "REJECT demo fails without patch"; rm -f tests/seed_demo.rs; exit 1; fi
 rm -f tests/seed_demo.rs
 D=/verif/seeded/$ID-$K
 mkdir -p $D
